@@ -120,6 +120,8 @@ FILLERS = {
     'paren': '(', 'empty': '', 'label': 'lbl', 'nolabel': 'nowhere',
     'expneg': '2 ^ -1', 'strcmp': '"a" < "b"', 'cmp': 'n% > 0',
     'func0': 'f0', 'const': 'kc', 'sarr': 'sarr$', 'field2': 'r.fb',
+    'parenarr': '(arr)', 'parenrec': '(r)', 'parenstr': '(s$)',
+    'parennum': '(n%)', 'arrcall': 'arr()', 'negstr': '-s$',
 }
 TEMPLATES = [
     'x = {0}', 'LET x% = {0}', 'x$ = {0}', 'r.fa = {0}', 'arr({0}) = {1}',
